@@ -5,8 +5,9 @@
    jittered sleep lengths are oracle inputs.  Not modelled: wall-clock (attemptedTime, region TTL,
    decay of the estimated wait), health-check goroutines, store re-resolution; the region is freshly loaded
    (proxyTiKVIdx = -1: it is only set by onSendSuccess, i.e. when the call ends).
-   [once] selects the repair candidate for finding F10 ("re-arm an exhausted replica at most once per selector");
-   the code as it is = [once := false] ([run]). *)
+   [fixed = true] is the code as it is ([run]): replica.onUpdateLeader(maxRearm = len(replicas) - 1) re-arms an exhausted replica
+   only while its counter [rearmed] is below maxRearm (fix cb7d671 of finding F10).  [fixed = false] is the rule before that
+   fix (re-arm on every hint), kept only to state why the fix is needed ([run_before_fix]). *)
 From Coq Require Import List Bool Arith NArith Lia.
 Import ListNotations.
 
@@ -108,7 +109,7 @@ Record state := mkState {
   orc_r : list nat;
   orc_s : list N;
   proxy : option nat;
-  rearmed_v : list bool }.
+  rearmed_v : list nat }.
 Definition set_reps (v : list rep) (s : state) : state := mkState (v) (leader s) (valid s) (rt s) (sel_attempts s) (inv_retry s) (busy_thr s) (lb_count s) (lb_peer s) (lb_probed s) (q_rt s) (q_rr s) (q_stale s) (q_retry s) (bo_total s) (bo_excl s) (orc_r s) (orc_s s) (proxy s) (rearmed_v s).
 Definition set_leader (v : nat) (s : state) : state := mkState (reps s) (v) (valid s) (rt s) (sel_attempts s) (inv_retry s) (busy_thr s) (lb_count s) (lb_peer s) (lb_probed s) (q_rt s) (q_rr s) (q_stale s) (q_retry s) (bo_total s) (bo_excl s) (orc_r s) (orc_s s) (proxy s) (rearmed_v s).
 Definition set_valid (v : bool) (s : state) : state := mkState (reps s) (leader s) (v) (rt s) (sel_attempts s) (inv_retry s) (busy_thr s) (lb_count s) (lb_peer s) (lb_probed s) (q_rt s) (q_rr s) (q_stale s) (q_retry s) (bo_total s) (bo_excl s) (orc_r s) (orc_s s) (proxy s) (rearmed_v s).
@@ -128,7 +129,7 @@ Definition set_bo_excl (v : N) (s : state) : state := mkState (reps s) (leader s
 Definition set_orc_r (v : list nat) (s : state) : state := mkState (reps s) (leader s) (valid s) (rt s) (sel_attempts s) (inv_retry s) (busy_thr s) (lb_count s) (lb_peer s) (lb_probed s) (q_rt s) (q_rr s) (q_stale s) (q_retry s) (bo_total s) (bo_excl s) (v) (orc_s s) (proxy s) (rearmed_v s).
 Definition set_orc_s (v : list N) (s : state) : state := mkState (reps s) (leader s) (valid s) (rt s) (sel_attempts s) (inv_retry s) (busy_thr s) (lb_count s) (lb_peer s) (lb_probed s) (q_rt s) (q_rr s) (q_stale s) (q_retry s) (bo_total s) (bo_excl s) (orc_r s) (v) (proxy s) (rearmed_v s).
 Definition set_proxy (v : option nat) (s : state) : state := mkState (reps s) (leader s) (valid s) (rt s) (sel_attempts s) (inv_retry s) (busy_thr s) (lb_count s) (lb_peer s) (lb_probed s) (q_rt s) (q_rr s) (q_stale s) (q_retry s) (bo_total s) (bo_excl s) (orc_r s) (orc_s s) (v) (rearmed_v s).
-Definition set_rearmed_v (v : list bool) (s : state) : state := mkState (reps s) (leader s) (valid s) (rt s) (sel_attempts s) (inv_retry s) (busy_thr s) (lb_count s) (lb_peer s) (lb_probed s) (q_rt s) (q_rr s) (q_stale s) (q_retry s) (bo_total s) (bo_excl s) (orc_r s) (orc_s s) (proxy s) (v).
+Definition set_rearmed_v (v : list nat) (s : state) : state := mkState (reps s) (leader s) (valid s) (rt s) (sel_attempts s) (inv_retry s) (busy_thr s) (lb_count s) (lb_peer s) (lb_probed s) (q_rt s) (q_rr s) (q_stale s) (q_retry s) (bo_total s) (bo_excl s) (orc_r s) (orc_s s) (proxy s) (v).
 
 
 Record cfg := mkCfg {
@@ -322,16 +323,20 @@ Definition on_send_fail (c : cfg) (s : state) (t : nat) (deadline : bool) (l : l
     with_backoff c BoRPC s2 RError.
 
 (* replicaSelector.onNotLeader with a leader hint (baseReplicaSelector.updateLeader, replica.onUpdateLeader) *)
-Definition on_not_leader_hint (once : bool) (s : state) (t k : nat) : hres :=
+Definition on_not_leader_hint (lim : option nat) (s : state) (t k : nat) : hres :=
   let s1 := upd_rep t (set_f_notleader true) s in
   if length (reps s1) <=? k then HRetry (set_valid false s1) []
   else if negb (is_reachable (live (rep_at s1 k))) then HRetry s1 []
   else
-    (* [rearmed_v] (which replicas were re-armed) only matters for the repair candidate [once = true] *)
-    let was_exhausted := exhausted (rep_at s1 k) max_replica_attempt && (negb once || negb (nth k (rearmed_v s1) true)) in
+    (* replica.onUpdateLeader(maxRearm): [rearmed_v] = the per-replica counters replica.rearmed; lim = Some maxRearm *)
+    let was_exhausted := exhausted (rep_at s1 k) max_replica_attempt &&
+                         match lim with Some m => nth k (rearmed_v s1) m <? m | None => true end in
     let s2 := upd_rep k (fun r => set_f_suspect false (set_f_notleader false
                                    (if was_exhausted then set_attempts (max_replica_attempt - 1) r else r)))
-                (if was_exhausted && once then set_rearmed_v (upd k (fun _ => true) (rearmed_v s1)) s1 else s1) in
+                (match lim with
+                 | Some _ => if was_exhausted then set_rearmed_v (upd k S (rearmed_v s1)) s1 else s1
+                 | None => s1
+                 end) in
     let s3 := set_leader k s2 in
     let s4 := if leader_candidate (rep_at s3 k) then set_rt RTLeader s3 else s3 in
     HRetry s4 (if was_exhausted then [ERearm k] else []).
@@ -361,13 +366,13 @@ Definition on_busy (c : cfg) (s : state) (t : nat) (wait : bool) : hres :=
   else with_backoff c BoBusy s1 RError.
 
 (* RegionRequestSender.onRegionError / onSendFail, for the outcome o of attempt number i sent to replica t *)
-Definition handle (once : bool) (c : cfg) (s : state) (t : nat) (o : outcome) (i : nat) : hres :=
+Definition handle (fixed : bool) (c : cfg) (s : state) (t : nat) (o : outcome) (i : nat) : hres :=
   match o with
   | OSuccess => HDone (RSuccess i) []
   | ORpcErr l => on_send_fail c s t false l
   | ODeadline l => on_send_fail c s t true l
   | ONotLeader => with_backoff c BoRegionScheduling (upd_rep t (set_f_notleader true) s) RError
-  | ONotLeaderHint k => on_not_leader_hint once s t k
+  | ONotLeaderHint k => on_not_leader_hint (if fixed then Some (length (c_reps c) - 1) else None) s t k
   | OEpochNoRegions | OEpochNewer | OStoreNotMatch => HDone (RRegionErr i) []
   | OEpochBehind => with_backoff c BoRegionMiss s RError
   | ORegionNotFound =>
@@ -449,8 +454,8 @@ Definition after_send (s : state) (t : nat) : state :=
   else s.
 
 (* the retry loop of SendReqCtx: [prev] is the replica and the outcome of attempt i-1 *)
-Fixpoint loop_gen (once : bool) (c : cfg) (script : list outcome) (s : state) (prev : option (nat * outcome)) (i : nat) : list event * result :=
-  match (match prev with None => HRetry s [] | Some (t, o) => handle once c s t o (pred i) end) with
+Fixpoint loop_gen (fixed : bool) (c : cfg) (script : list outcome) (s : state) (prev : option (nat * outcome)) (i : nat) : list event * result :=
+  match (match prev with None => HRetry s [] | Some (t, o) => handle fixed c s t o (pred i) end) with
   | HDone r evs => (evs, r)
   | HRetry s1 evs1 =>
       let s1' := if 0 <? i then set_q_retry true s1 else s1 in
@@ -463,7 +468,7 @@ Fixpoint loop_gen (once : bool) (c : cfg) (script : list outcome) (s : state) (p
           | [] => (evs1 ++ evs2 ++ [ev], RSuccess i)
           | OSuccess :: _ => (evs1 ++ evs2 ++ [ev], RSuccess i)
           | o :: rest =>
-              let '(evs, r) := loop_gen once c rest s3 (Some (t, o)) (S i) in
+              let '(evs, r) := loop_gen fixed c rest s3 (Some (t, o)) (S i) in
               (evs1 ++ evs2 ++ ev :: evs, r)
           end
       end
@@ -472,16 +477,16 @@ Fixpoint loop_gen (once : bool) (c : cfg) (script : list outcome) (s : state) (p
 Definition init_state (c : cfg) (rands : list nat) (sleeps : list N) : state :=
   mkState (c_reps c) 0 true (c_rt c) 0 false (c_thr c) 0 None false
           (c_rt c) (c_read c && negb (c_stale c) && negb (rt_eqb (c_rt c) RTLeader)) (c_read c && c_stale c) false
-          0%N 0%N rands sleeps None (map (fun _ => false) (c_reps c)).
+          0%N 0%N rands sleeps None (map (fun _ => 0) (c_reps c)).
 
 (* SendReqCtx: validateReadTS first (reads only), then the loop *)
-Definition run_gen (once : bool) (c : cfg) (script : list outcome) (rands : list nat) (sleeps : list N) : list event * result :=
+Definition run_gen (fixed : bool) (c : cfg) (script : list outcome) (rands : list nat) (sleeps : list N) : list event * result :=
   if c_read c && negb (c_val c) then ([], RError)
-  else loop_gen once c script (init_state c rands sleeps) None 0.
+  else loop_gen fixed c script (init_state c rands sleeps) None 0.
 (* the code as it is *)
-Definition run := run_gen false.
-(* repair candidate for F10: an exhausted replica is re-armed at most once per selector *)
-Definition run_rearm_once := run_gen true.
+Definition run := run_gen true.
+(* the re-arm rule before fix cb7d671 (finding F10): every hint re-arms an exhausted replica *)
+Definition run_before_fix := run_gen false.
 
 (* observables *)
 Definition is_att (e : event) : bool := match e with EAtt _ _ _ _ => true | _ => false end.
